@@ -300,7 +300,11 @@ def judge(case, rec, config):
             "misnamed_lfi_query": bool(rec.get("misnamed")),
             # infer_AD_values added evidence that is not in the data AND examples were rejected before any update
             "inferred_ad_evidence_rejected": bool(rec.get("inferred_ad_evidence")) and rec["iters"][0]["used"] < rec["nexamples"],
-            "tunable_ad": any(case["program"]["stmts"][si][0] == "ad" for si, hi in case["tun"])}
+            "tunable_ad": any(case["program"]["stmts"][si][0] == "ad" for si, hi in case["tun"]),
+            # an annotated disjunction with learnable AND constant-probability heads (the EM update ignores the fixed mass)
+            "mixed_ad": any(case["program"]["stmts"][si][0] == "ad" and
+                            len({h for s2, h in case["tun"] if s2 == si}) < len(case["program"]["stmts"][si][1])
+                            for si, hi in case["tun"])}
     its = rec["iters"]
     for i in range(1, len(its)):
         a, b = its[i - 1]["ll"], its[i]["ll"]
